@@ -59,12 +59,10 @@ theorem sp_key_tail {sa sb : List (Db × Option Uow)}
 
 theorem sp_key_restore {x y : Option Uow}
     (h : x.map (fun u => (u.cur, u.ops, u.pending)) = y.map (fun u => (u.cur, u.ops, u.pending))) :
-    (x.map (fun u => ({ u with vobjs := [], pending := [] } : Uow))).map (fun u => (u.cur, u.ops, u.pending)) =
-    (y.map (fun u => ({ u with vobjs := [], pending := [] } : Uow))).map (fun u => (u.cur, u.ops, u.pending)) := by
-  have h' := congrArg (Option.map (fun t : Option Nat × List OpEntry × List (Nat × Op × List Int) =>
-    (t.1, t.2.1, ([] : List (Nat × Op × List Int))))) h
-  rw [Option.map_map, Option.map_map] at h' ⊢
-  exact h'
+    (x.map (fun u => ({ u with vobjs := [] } : Uow))).map (fun u => (u.cur, u.ops, u.pending)) =
+    (y.map (fun u => ({ u with vobjs := [] } : Uow))).map (fun u => (u.cur, u.ops, u.pending)) := by
+  rw [Option.map_map, Option.map_map]
+  exact h
 
 /-- a savepoint rollback on two states that are equal except for the cache -/
 theorem sp_same_spRollback (cfg : Cfg) {a b : St} (h : sameButCache a b) :
@@ -138,12 +136,12 @@ theorem run_sameButCache (cfg : Cfg) (a b : St) (evs : List Ev) (h : sameButCach
 
 /-- **erasing a rolled-back savepoint bracket from a history changes nothing but the cache**
 
-`hp` is needed: the rollback forgets the pending association statements, including those issued
-before SAVEPOINT and not yet flushed, so with `s.uowD.pending ≠ []` the two sides differ in `pending`
-already for `rest = []` (`sp_bracket_pending_needed`).  `herr` is never a restriction in this model
-(`run_err`: continuum's own writes raise nothing), see `sp_bracket_erase_noerr`. -/
+The rollback restores the pending association statements the unit of work held at SAVEPOINT as well
+(a Core statement on an association table issued before the savepoint and not flushed yet is still
+mirrored by the next flush), so no hypothesis on `pending` is needed.  `herr` is never a restriction
+in this model (`run_err`: continuum's own writes raise nothing), see `sp_bracket_erase_noerr`. -/
 theorem sp_bracket_erase (cfg : Cfg) (s : St) (body rest : List Ev)
-    (hb : ∀ e ∈ body, e.isEnd = false ∧ e.isSp = false) (hp : s.uowD.pending = [])
+    (hb : ∀ e ∈ body, e.isEnd = false ∧ e.isSp = false)
     (herr : (run cfg s body).err = s.err) :
     sameButCache (run cfg s ([.spBegin] ++ body ++ [.spRollback] ++ rest)) (run cfg s rest) := by
   rw [run_append]
@@ -154,31 +152,19 @@ theorem sp_bracket_erase (cfg : Cfg) (s : St) (body rest : List Ev)
   | mk db c uow sps err =>
     cases uow with
     | none => rfl
-    | some u =>
-      simp only [St.uowD, Option.getD_some] at hp
-      show some _ = some _
-      simp only [hp]
+    | some u => rfl
 
 /-- the same without the hypothesis on the error flag (it never changes: `run_err`) -/
 theorem sp_bracket_erase_noerr (cfg : Cfg) (s : St) (body rest : List Ev)
-    (hb : ∀ e ∈ body, e.isEnd = false ∧ e.isSp = false) (hp : s.uowD.pending = []) :
+    (hb : ∀ e ∈ body, e.isEnd = false ∧ e.isSp = false) :
     sameButCache (run cfg s ([.spBegin] ++ body ++ [.spRollback] ++ rest)) (run cfg s rest) :=
-  sp_bracket_erase cfg s body rest hb hp (run_err cfg s body)
+  sp_bracket_erase cfg s body rest hb (run_err cfg s body)
 
 /-- in particular the tables every continuation writes are the same -/
 theorem sp_bracket_erase_db (cfg : Cfg) (s : St) (body rest : List Ev)
-    (hb : ∀ e ∈ body, e.isEnd = false ∧ e.isSp = false) (hp : s.uowD.pending = []) :
+    (hb : ∀ e ∈ body, e.isEnd = false ∧ e.isSp = false) :
     (run cfg s ([.spBegin] ++ body ++ [.spRollback] ++ rest)).db = (run cfg s rest).db ∧
     (run cfg s ([.spBegin] ++ body ++ [.spRollback] ++ rest)).committed = (run cfg s rest).committed :=
-  ⟨(sp_bracket_erase_noerr cfg s body rest hb hp).1, (sp_bracket_erase_noerr cfg s body rest hb hp).2.1⟩
-
-/-- `hp` cannot be dropped: an association statement pending at SAVEPOINT is forgotten by the rollback -/
-theorem sp_bracket_pending_needed :
-    let s : St := { uow := some { pending := [(0, .insert, [1])] } }
-    ¬ sameButCache (run {} s ([.spBegin] ++ [] ++ [.spRollback] ++ [])) (run {} s []) := by
-  intro s h
-  have h4 : some ((none : Option Nat), ([] : List OpEntry), ([] : List (Nat × Op × List Int))) =
-      some (none, [], [(0, Op.insert, [1])]) := h.2.2.2.1
-  simp at h4
+  ⟨(sp_bracket_erase_noerr cfg s body rest hb).1, (sp_bracket_erase_noerr cfg s body rest hb).2.1⟩
 
 end Continuum
